@@ -8,7 +8,7 @@ uses labtech's own dependency search.
 import random
 
 SHAPES = ('chain', 'diamond', 'fanin', 'fanout', 'wide', 'layered', 'reqsub', 'mix')
-DEFAULT_TYPES = (('NA', 5), ('NB', 2), ('NC', 2), ('ND', 1), ('NN', 2), ('NJ', 1), ('NF', 1), ('NP', 1), ('NM', 1), ('NK', 1), ('NT', 1), ('NE', 1), ('NZ', 1))
+DEFAULT_TYPES = (('NA', 4), ('N__U_', 1), ('NR', 1), ('NB', 2), ('NC', 2), ('ND', 1), ('NN', 2), ('NJ', 1), ('NF', 1), ('NP', 1), ('NM', 1), ('NK', 1), ('NT', 1), ('NE', 1), ('NZ', 1))
 
 
 def leaf(name):
@@ -140,6 +140,8 @@ def gen_spec(rng, *, shape=None, nmax=10, types=DEFAULT_TYPES, depth=3, dup_ref=
         one, many, named = _place(rng, deps, depth)
         tasks[name] = {'type': _pick_type(rng, types), 'one': one, 'many': many, 'named': named,
                        'p': rng.choice([None, 0, 1, 'x', [1, 2], {'a': 1}])}
+        if tasks[name]['type'] == 'NR' and rng.random() < 0.8:
+            tasks[name]['p'] = rng.choice(['x', 'yz'])
     spec = {'shape': shape, 'tasks': tasks}
     spec['requested'] = gen_requested(rng, spec, shape)
     return spec
@@ -200,8 +202,12 @@ class Built:
             if isinstance(tree, dict):
                 return {k: conv(x) for k, x in tree.items()}
             return tree
+        pval = conv(t['p'])
+        if fresh and t['type'] == 'NR' and isinstance(pval, str) and self._rng is not None:
+            # a duplicate of this task written differently: equal to the canonical instance once post_init has run
+            pval = self._rng.choice([pval.upper(), f' {pval} ', pval.title() + '  ', '\t' + pval])
         obj = self.types[t['type']](name=name, one=conv(t['one']), many=conv(t['many']),
-                                    named=conv(t['named']), p=conv(t['p']))
+                                    named=conv(t['named']), p=pval)
         self.instances.append((name, obj))
         if name not in self.canon:
             self.canon[name] = obj
